@@ -3,7 +3,8 @@ import random
 
 CONTEXTS = ["stmt", "arg", "decorator", "default", "comprehension", "lambda", "multiline",
             "nested", "assign", "method_chain", "await_like", "class_body", "kwvalue", "subscript",
-            "samename_method", "samename_inner_def", "fstring_multiline", "fstring_format_spec"]
+            "samename_method", "samename_inner_def", "fstring_multiline", "fstring_format_spec",
+            "param_annotation", "return_annotation", "annotated_assign", "star_param_annotation"]
 
 
 def spellings(q):
@@ -18,6 +19,10 @@ def spellings(q):
     out.append(("import_m_as", ["import %s as zz_a" % m], "zz_a.%s" % f))
     out.append(("from_m_import_f", ["from %s import %s" % (m, f)], f))
     out.append(("from_m_import_f_as", ["from %s import %s as zz_g" % (m, f)], "zz_g"))
+    # the same local name bound twice, the second time inside a handler / a nested block: the table is filled in source order
+    out.append(("try_except_fallback_from", ["try:", "    from zz_speedups import %s" % f, "except ImportError:", "    from %s import %s" % (m, f)], f))
+    out.append(("try_except_fallback_import_as", ["try:", "    import zz_speedups as zz_a", "except ImportError:", "    import %s as zz_a" % m], "zz_a.%s" % f))
+    out.append(("if_else_import_from", ["if zz_flag:", "    from zz_other import %s" % f, "else:", "    from %s import %s" % (m, f)], f))
     # a method / an inner function of the same name does not rebind the module-level name
     out.append(("from_m_import_f_method_same_name", ["from %s import %s" % (m, f), "class ZzSame:", "    def %s(self, *zz_a):" % f, "        return zz_a"], f))
     out.append(("from_m_import_f_as_inner_def_same_name", ["from %s import %s as zz_g" % (m, f), "def zz_outer():", "    def zz_g():", "        pass", "    return zz_g"], "zz_g"))
@@ -95,6 +100,14 @@ def in_context(ctx, call, pre_lines):
         import re as _re
         nm = _re.match(r"[A-Za-z_][A-Za-z_0-9]*", call).group(0)
         body = ["def zz_outer():", "    def %s(zz_v):" % nm, "        return zz_v", "    return 1", "zz_r = %s" % call]; off = 4
+    elif ctx == "param_annotation":
+        body = ["def zz_f(zz_a: %s, zz_b=1):" % call, "    return zz_a"]; off = 0
+    elif ctx == "star_param_annotation":
+        body = ["def zz_f(*zz_a: %s, zz_k: int = 1, **zz_kw: %s):" % (call, "int"), "    return zz_a"]; off = 0
+    elif ctx == "return_annotation":
+        body = ["def zz_f(zz_a) -> %s:" % call, "    return zz_a"]; off = 0
+    elif ctx == "annotated_assign":
+        body = ["zz_v: %s = 1" % call]; off = 0
     else:
         raise ValueError(ctx)
     src = "\n".join(pre + body) + "\n"
